@@ -36,6 +36,7 @@ func caseSchlick(c *hlib.Ctx) {
 	mat := &render3d.RefractMaterial{IndexOfRefraction: i}
 	got := hlib.Guard(func() string { return hx(render3d.VerifReflectAmount(mat, n, s)) })
 	c.Emit(fmt.Sprintf("c19 schlick %s %s %s", hx(i), hv(n), hv(s)), got)
+	c.Emit(fmt.Sprintf("c19 schlickg %s %s %s", hx(i), hv(n), hv(s)), got)
 	if i < 1 {
 		c.Stat("schlick.ior<1", 1)
 	} else if i > 1 {
